@@ -362,11 +362,15 @@ Section LPI.
   Definition lpi_solve (point cv : vec) (pts : list vec) (vals : vec) (compat : list nat) : option (vec * Q) :=
     match compat with
     | [i] =>
-        (* single compatible point, with fixes/C12-lpinterp-shortcut-div0.patch applied *)
+        (* single compatible point, with fixes/C12-lpinterp-shortcut-div0.patch and
+           fixes/C12-lpinterp-shortcut-opt.patch applied *)
         let comp := nth i pts [] in
         let c0 := fold_left (fun acc s => if isZero (nthq comp s) then acc else Qmin acc (nthq point s / nthq comp s))
                             (nonZeroStates point) 1 in
-        Some ([c0], c0 * (nthq vals i - dot comp cv))
+        let u := c0 * (nthq vals i - dot comp cv) in
+        (* fixes/C12-lpinterp-shortcut-opt.patch: a point above the corner surface gets weight 0,
+           as the LP would give it *)
+        if Qlt_le_dec 0 u then Some ([0], 0) else Some ([c0], u)
     | _ =>
         let coef := lpi_coef point cv pts vals compat in
         match lp_min (lpi_rows point pts compat) (lpi_rhs point) coef with
